@@ -138,3 +138,27 @@ Proof.
   intros H. split; [apply lex_ilp_update_text|].
   unfold pb_file_sat_text. rewrite lex_ilp_update_text. now apply ilp_update_sat.
 Qed.
+
+(** * The update step of the non-uniform sampler, on the characters *)
+From SP Require Import Text.TextCharsUpdate.
+
+Lemma update_file_chars s sol f' :
+  update_file (lex_file s) sol = Some f' ->
+  exists t, update_file_text s sol = Some t /\ lex_file t = f'.
+Proof. apply update_file_text_correct. Qed.
+
+Lemma update_file_blocks_chars s nv m rest sol :
+  has_header (lex_file s) nv m rest -> sol <> [] -> nonzero sol ->
+  exists t,
+    update_file_text s sol = Some t /\
+    has_header (lex_file t) nv (m + 1) (rest ++ [clause_line (blocking_clause sol)]) /\
+    (forall n cs, parse_cms_text s = Some (n, cs) ->
+                  parse_cms_text t = Some (n, cs ++ [blocking_clause sol])) /\
+    (forall cs ss n, parse_unigen_text s = Some (cs, ss, n) ->
+                     parse_unigen_text t = Some (cs ++ [blocking_clause sol], ss, n)).
+Proof.
+  intros H Hne Hnz.
+  destruct (update_file_blocks (lex_file s) nv m rest sol H Hne Hnz) as [f' [U [HH [PC [PU _]]]]].
+  destruct (update_file_text_correct s sol f' U) as [t [T L]].
+  exists t. unfold parse_cms_text, parse_unigen_text. rewrite L. repeat split; assumption.
+Qed.
